@@ -10,7 +10,7 @@ from Bio import SeqIO
 from Bio.Data import CodonTable
 from harness import refmodel as rm
 from harness import strategies as S
-from harness.build import mkcollection, chrom_parent
+from harness.build import mkcollection, chrom_parent, chunk_parent
 from harness.core import Leg, Prop
 from inscripta.biocantor.io.genbank.constants import GenbankFlavor, GenBankParserType
 from inscripta.biocantor.io.genbank.parser import parse_genbank
@@ -40,7 +40,10 @@ def gene_strand(g):
 
 def export(spec, flavor, translations, ctx=None):
     # a file may hold several records: further collections (spec["more"]) on sequences chr2, chr3 are written after the first
-    coll = mkcollection(spec["obj"], chrom_parent(spec["genome"]))
+    # the first collection may live on a sequence chunk that contains all its members (e.g. the result of a range query): the
+    # record then holds the chunk's sequence and chunk-relative coordinates
+    ch_ = spec.get("chunk")
+    coll = mkcollection(spec["obj"], chunk_parent(spec["genome"], ch_[0], ch_[1]) if ch_ else chrom_parent(spec["genome"]))
     colls = [coll] + [mkcollection(m_["obj"], chrom_parent(m_["genome"], name="chr%d" % (k_ + 2)), sequence_name="chr%d" % (k_ + 2)) for k_, m_ in enumerate(spec.get("more") or [])]
     buf = io.StringIO()
     with warnings.catch_warnings():
@@ -113,6 +116,10 @@ def check_genbank(spec, ctx):
     parts = [(spec["obj"], spec["genome"])] + [(m_["obj"], m_["genome"]) for m_ in (spec.get("more") or [])]
     if len(parts) > 1:
         ctx.nt("several_records")
+    if spec.get("chunk"):
+        ctx.label("collection_on_chunk")
+        if spec["chunk"][0] > 0:
+            ctx.nt("collection_on_chunk_with_offset")
     o, g = spec["obj"], spec["genome"]
     genes = [gn for o_, _ in parts for gn in o_.get("genes", [])]
     if any(t["strand"] == "-" and len(t["exons"]) > 1 and "cds" in t for gn in genes for t in gn["transcripts"]):
@@ -135,14 +142,17 @@ def check_genbank(spec, ctx):
                 continue
             all_feats, ok_ = [], True
             for k_, ((o_, g_), rec) in enumerate(zip(parts, recs)):
+                sh_ = spec["chunk"][0] if (k_ == 0 and spec.get("chunk")) else 0
+                if k_ == 0 and spec.get("chunk"):
+                    g_ = g_[spec["chunk"][0]:spec["chunk"][1]]
                 ctx.eq("sequence", str(rec.seq).upper(), g_.upper())
                 ctx.eq("record_name", rec.name, "chr%d" % (k_ + 1))
-                exp = expected_features(o_, flavor)
+                exp = [(t_, [(a_ - sh_, b_ - sh_) for a_, b_ in bl_], *rest_) for t_, bl_, *rest_ in expected_features(o_, flavor)]
                 got = [(f.type, blocks_of(f), strand_of(f)) for f in rec.features]
                 if not ctx.eq("features[%s]" % flavor, got, [(t, b, s) for t, b, s, *_ in exp]):
                     ok_ = False
                     continue
-                all_feats.extend((f, e_, g_) for f, e_ in zip(rec.features, exp))
+                all_feats.extend((f, e_, parts[k_][1]) for f, e_ in zip(rec.features, exp))
             if not ok_:
                 continue
             for f, (etype, eb, es, eq, kind, src), g in all_feats:
@@ -188,7 +198,9 @@ def check_genbank(spec, ctx):
                     continue
                 pcs = [r_.to_annotation_collection() for r_ in pr]
                 parsed[mode] = pcs
-                for pc_, (o_, g_) in zip(pcs, parts):
+                for k2_, (pc_, (o_, g_)) in enumerate(zip(pcs, parts)):
+                    if k2_ == 0 and spec.get("chunk"):
+                        g_ = g_[spec["chunk"][0]:spec["chunk"][1]]
                     ctx.eq("parsed_sequence[%s]" % mode, str(pc_.sequence).upper(), g_.upper())
                     ctx.eq("parsed_genes_on_their_sequence[%s]" % mode, sorted(gn.locus_tag for gn in pc_.genes),
                            sorted((gn.get("locus_tag") or gn.get("gene_symbol") or gn.get("gene_id")) for gn in o_.get("genes", [])))
@@ -196,8 +208,11 @@ def check_genbank(spec, ctx):
                 src_genes = {(gn.get("locus_tag") or gn.get("gene_symbol") or gn.get("gene_id")): gn for gn in genes}
                 if not ctx.eq("parsed_locus_tags[%s,%s]" % (flavor, mode), sorted(got_genes), sorted(src_genes)):
                     continue
+                sh0 = spec["chunk"][0] if spec.get("chunk") else 0
+                first_part_genes = {id(gn) for gn in parts[0][0].get("genes", [])}
                 for lt, sg in src_genes.items():
                     pg = got_genes[lt]
+                    shg = sh0 if id(sg) in first_part_genes else 0
                     strand = gene_strand(sg)
                     ctx.eq("parsed_gene_symbol", pg.gene_symbol, sg.get("gene_symbol") or sg.get("gene_id"))
                     ctx.eq("parsed_gene_id", pg.gene_id, sg.get("gene_id"))
@@ -210,10 +225,10 @@ def check_genbank(spec, ctx):
                         coding = "cds" in stx
                         ctx.eq("parsed_strand", pt.strand.to_symbol(), strand)
                         struct = stx["cds"] if (coding and flavor == "PROKARYOTIC") else stx["exons"]
-                        ctx.eq("parsed_structure[%s]" % flavor, [(b.start, b.end) for b in pt.chromosome_location.blocks], [tuple(b) for b in struct])
+                        ctx.eq("parsed_structure[%s]" % flavor, [(b.start, b.end) for b in pt.chromosome_location.blocks], [(b[0] - shg, b[1] - shg) for b in struct])
                         ctx.eq("parsed_is_coding", pt.is_coding, coding)
                         if coding and pt.is_coding:
-                            ctx.eq("parsed_cds_blocks", list(zip(pt.cds._genomic_starts, pt.cds._genomic_ends)), [tuple(b) for b in stx["cds"]])
+                            ctx.eq("parsed_cds_blocks", list(zip(pt.cds._genomic_starts, pt.cds._genomic_ends)), [(b[0] - shg, b[1] - shg) for b in stx["cds"]])
                             got_first = pt.cds.frames[0].value if strand == "+" else pt.cds.frames[-1].value
                             ctx.eq("parsed_start_frame[%s]" % flavor, got_first, first_frame(stx))
                             first_len = (stx["cds"][0][1] - stx["cds"][0][0]) if strand == "+" else (stx["cds"][-1][1] - stx["cds"][-1][0])
@@ -233,6 +248,11 @@ def check_genbank(spec, ctx):
 @st.composite
 def strat_genbank(draw, tier="quick"):
     sp = draw(_one_record(""))
+    if draw(st.integers(0, 3)) == 0:
+        # the collection sits on a sequence chunk that contains every member
+        members_lo = min([t["exons"][0][0] for gn in sp["obj"]["genes"] for t in gn["transcripts"]] + [f["blocks"][0][0] for c in sp["obj"]["feature_collections"] for f in c["features"]])
+        members_hi = max([t["exons"][-1][1] for gn in sp["obj"]["genes"] for t in gn["transcripts"]] + [f["blocks"][-1][1] for c in sp["obj"]["feature_collections"] for f in c["features"]])
+        sp["chunk"] = [draw(st.integers(0, members_lo)), draw(st.integers(members_hi, len(sp["genome"])))]
     if draw(st.integers(0, 3)) == 0:
         sp["more"] = [draw(_one_record("s%d" % k, max_genes=2)) for k in range(draw(st.integers(1, 2)))]
     return sp
@@ -303,7 +323,7 @@ PROP = Prop(
     pid="C12",
     legs=[
         Leg("genbank", check_genbank, strategy=strat_genbank, n_quick=150, n_thorough=1500, shards_quick=8,
-            must_hit=["minus&multi_exon", "offset!=0", "noncoding", "two_genes_touching", "translation_checked", "stale_translation_qualifier", "multi_isoform_gene", "several_records"],
+            must_hit=["minus&multi_exon", "offset!=0", "noncoding", "two_genes_touching", "translation_checked", "stale_translation_qualifier", "multi_isoform_gene", "several_records", "collection_on_chunk_with_offset"],
             rule="1..4 single-strand genes at increasing positions (adjacent genes possible), 1..2 isoforms, coding (offset 0/1/2, one reading frame) or non-coding (ncRNA/tRNA/rRNA/misc_RNA/tmRNA/lncRNA), unique symbols and locus tags, optional feature collection; x flavour {prokaryotic, eukaryotic} x update_translations x parser mode {sorted, locus-tag, hybrid}"),
     ],
     rule="Oracle: Bio.SeqIO (independent reader) for record types/blocks/strand/qualifiers, Bio codon table for /translation; source spec for the "
